@@ -79,6 +79,9 @@ ASSUMPTIONS = [
     "last length tojson in *args unpacking 'is iterable' printing string ~)",
     "excluded, counted (known finding F41: async unique / slice list their input when called, the sync ones lazily): pipelines "
     "in which evaluating the input of a unique / slice stage raises (decided by listing that input in the sync environment)",
+    "excluded, counted (finding C09-NATIVE-ORDER: native sync render() converts output values to str while the template is "
+    "still running, render_async afterwards, so with two failing places a different error wins): native template sets that "
+    "print an imported module object (its str() raises TypeError in a native environment)",
     "awaitable attributes / items (wrap=true) are only read by compiled attribute and subscript expressions, coroutine test "
     "functions only by compiled 'is' tests (filters that look attributes up or call tests themselves do not await them)",
     "native environments: generate() is not compared (chunks are not strings)",
@@ -302,6 +305,10 @@ def _observe(env, name, entry_point, data, loop, native, tglobals=None):
             raise core.HarnessError(entry_point)
     except st["outcomes"] as e:
         return ("err", type(e).__name__, str(e)[:200])
+    except RecursionError:
+        if env.is_async:
+            raise
+        return ("recursion",)   # a program that does not terminate (sync reference): the data is discarded
     if native and entry_point in ("render", "render_async"):
         return ("ok", _canon(v))
     return ("ok", v)
@@ -364,6 +371,9 @@ def _run_plan(case, plan):
                 tg = plan.tglobals
                 ref = {"render": _observe(senv, name, "render", mk(senv, False), None, native, tg)}
                 r = ref["render"]
+                if r[0] == "recursion":
+                    labels.add("data_discarded_recursion")
+                    continue
                 if r[0] == "ok" and not native and (len(r[1]) > MAX_OUT or _ADDR.search(r[1])):
                     labels.add("data_discarded_addr_or_size")
                     continue
@@ -637,8 +647,30 @@ def _plan_expr(case):
 # family: tset
 
 
-def _plan_tset(case):
+def _prints_module(ir):
+    """Does a template print an imported module object ({% import x as L %}{{ L }})?"""
+    def walk(nodes, aliases):
+        for n in nodes:
+            if not isinstance(n, list) or not n:
+                continue
+            if n[0] == "import":
+                aliases.add(n[2])
+            elif n[0] == "out" and n[1][0] == "n" and n[1][1] in aliases:
+                return True
+            for sub in n[1:]:
+                if isinstance(sub, list) and sub and isinstance(sub[0], list) and walk(sub, aliases):
+                    return True
+        return False
+
+    return any(isinstance(body, list) and walk(body, set()) for body in ir["templates"].values())
+
+
+def _plan_tset(case, allow_known=False):
     ir, data = case["ir"], case["data"]
+    if case.get("cls") == "native" and not allow_known and _prints_module(ir):
+        # known finding F42-candidate (native sync render interleaves str() of output values with rendering, render_async
+        # renders everything first): str(module) raises TypeError in a native environment; which error wins differs
+        raise core.Excluded()
     templates = tsets.print_set(ir)
 
     def mk(env, wrapped):
@@ -968,7 +1000,7 @@ def _check(case, allow_known=False):
     elif fam == "expr":
         plan = _plan_expr(case)
     elif fam == "tset":
-        plan = _plan_tset(case)
+        plan = _plan_tset(case, allow_known)
     elif fam == "pipe":
         plan = _plan_pipe(case, allow_known)
     elif fam == "raw":
